@@ -33,7 +33,7 @@ def cases(tier, seed):
     n = 60 if tier == "quick" else 600
     for i in range(n):
         out.append(dict(kind="scaler", scale=["norm", "scale", None, 10][i % 4] if i % 7 else "norm",
-                        mag=rnd.choice([1e-3, 1e-1, 1.0, 30.0, 1e4]), off=rnd.choice([0.0, 0.0, 1.0, -10.0, 50.0]),
+                        mag=rnd.choice([1e-6, 1e-5, 1e-3, 1e-1, 1.0, 30.0, 1e4]), off=rnd.choice([0.0, 0.0, 1.0, -10.0, 50.0]) if i % 3 else 0.0,
                         steps=rnd.choice([5, 20, 60]) if i % 10 else (300 if tier == "quick" else 1000),
                         const=rnd.random() < 0.15, s=rnd.randrange(10**6)))
     for (n_, E_) in ((1, 1), (2, 2), (3, 2), (2, 3), (4, 3)):
@@ -236,6 +236,10 @@ def run_case(ctx, case):
             tr = RL4COTrainer(matmul_precision="highest", max_epochs=E_, accelerator="cpu", devices=1, logger=False, enable_checkpointing=False, enable_progress_bar=False, enable_model_summary=False,
                               precision="32-true", default_root_dir=d, num_sanity_val_steps=0)
             tr.fit(model)
+            alpha_after_fit = float(model.baseline.alpha)
+            # the usual sequel: evaluate the trained model with the same trainer (set-up runs again for the test stage)
+            tr.test(model, verbose=False)
+            alpha_after_test = float(model.baseline.alpha)
         finally:
             os.chdir(cwd)
             shutil.rmtree(d, ignore_errors=True)
@@ -249,8 +253,12 @@ def run_case(ctx, case):
                 ctx.violation(dict(sig, q="alpha_during_epoch"), f"warm-up weight during epoch {e} is {a}, expected min(1, {e}/{n_})", dict(n_epochs=n_, max_epochs=E_))
                 return
         ctx.evaluation()
-        if not close(float(model.baseline.alpha), min(1.0, E_ / n_), 1e-9, 1e-12):
-            ctx.violation(dict(sig, q="alpha_after_fit"), f"after {E_} epochs the baseline holds warm-up weight {float(model.baseline.alpha)}, expected min(1, {E_}/{n_}) (the last epoch's callback)", dict(n_epochs=n_, max_epochs=E_))
+        if not close(alpha_after_fit, min(1.0, E_ / n_), 1e-9, 1e-12):
+            ctx.violation(dict(sig, q="alpha_after_fit"), f"after {E_} epochs the baseline holds warm-up weight {alpha_after_fit}, expected min(1, {E_}/{n_}) (the last epoch's callback)", dict(n_epochs=n_, max_epochs=E_))
+            return
+        ctx.evaluation()
+        if not close(alpha_after_test, alpha_after_fit, 1e-9, 1e-12):
+            ctx.violation(dict(sig, q="alpha_after_test"), f"testing the trained model changed the warm-up weight from {alpha_after_fit} to {alpha_after_test}", dict(n_epochs=n_, max_epochs=E_))
             return
         ctx.nontrivial_case(case)
     elif kind == "warmup":
